@@ -219,6 +219,15 @@ var strPieces = []string{"a", "b", "prod", "acme.com", " ", "x y", "#nocomment",
 	`\n`, `\t`, `\\`, `\"`, `\x41`, `é`, `\101`, `\r`, `\a`, `\U0001F600`, "\U0001F600", "\U00010348x", "-", "0", "42", "var", "def", "'", "/", "%d", "<=", "->"}
 
 func (g *g) strLit() string {
+	if g.r.Chance(1, 12) && len(g.toks) > 0 {
+		// a string that spells an earlier literal or identifier: constants of different kinds with one text
+		for tries := 0; tries < 4; tries++ {
+			t := g.toks[g.r.Intn(len(g.toks))]
+			if t.Kind == KInt || t.Kind == KFloat || t.Kind == KIdent || t.Kind == KKw {
+				return `"` + t.Text + `"`
+			}
+		}
+	}
 	var sb strings.Builder
 	sb.WriteByte('"')
 	if g.cfg.LongTail && g.r.Chance(1, 6) {
@@ -624,6 +633,12 @@ func (g *g) blockStmt(usedKeys map[string]bool) {
 		name = fmt.Sprintf("n%d", g.r.Intn(1000))
 		if g.r.Chance(1, 6) {
 			name = "my-service." + name
+		}
+		if g.r.Chance(1, 8) && len(g.toks) > 0 {
+			// a block name that spells an earlier literal or identifier
+			if t := g.toks[g.r.Intn(len(g.toks))]; (t.Kind == KInt || t.Kind == KFloat || t.Kind == KIdent) && len(t.Text) < 40 {
+				name = t.Text
+			}
 		}
 	}
 	key := bt
